@@ -204,6 +204,45 @@ theorem task_view_nosv (P : ProcInfo) (hP : 0 < P.appid) (evs : List Ev)
   rw [ei.view th, hr, ← ei.inv.taskId t T hT, ← ei.inv.bodyId t b B hB]
   rfl
 
+/-- **Linter mode** (`ovniemu -l`): the trace is accepted iff the specification
+    run exists and ends with an empty subsystem stack on every thread of the trace. -/
+theorem lint_accept_iff (m : Model) (P : ProcInfo) (hP : 0 < P.appid) (evs : List Ev) (ths : List Nat) :
+    (∃ ε, Emu.run m P Emu.init evs = .ok ε ∧ ε.lintOk ths = true) ↔
+      ∃ e, ERun m EAbs.init evs e ∧ ∀ th ∈ ths, e.ss th = [] := by
+  constructor
+  · rintro ⟨ε, h, hl⟩
+    refine ⟨eabs ε, (erun_final hP (einv_init m P) _).1 ⟨ε, h, rfl⟩, ?_⟩
+    intro th hth
+    have := List.all_eq_true.1 hl th hth
+    show ε.ss th = []
+    simpa using this
+  · rintro ⟨e, hr, hl⟩
+    obtain ⟨ε, h, rfl⟩ := (erun_final hP (einv_init m P) e).2 hr
+    refine ⟨ε, h, List.all_eq_true.2 ?_⟩
+    intro th hth
+    have : ε.ss th = [] := hl th hth
+    simp [this]
+
+/-- The table-driven subsystem events of both models never push or pop the
+    "running body" value themselves (whole regenerated tables). -/
+theorem table_events_clean :
+    (∀ row ∈ Ovni.Generated.Nosv.table, row.2.2.1 = 4 → row.2.2.2.2 ≠ Cfg.nosv.stTaskBody) ∧
+    (∀ row ∈ Ovni.Generated.Nanos6.table, row.2.2.1 = 2 → row.2.2.2.2 ≠ Cfg.nanos6.stTaskBody) := by
+  decide
+
+/-- In linter mode an accepted trace leaves no body Running or Paused: every
+    thread's body stack is empty at the end (given that the other subsystem
+    events do not fake the "running body" value, see `table_events_clean`). -/
+theorem lint_all_ended (m : Model) (P : ProcInfo) (hP : 0 < P.appid) (evs : List Ev) (ε : Emu)
+    (h : Emu.run m P Emu.init evs = .ok ε) (hcl : ∀ ev ∈ evs, ev.clean m)
+    (ths : List Nat) (hl : ε.lintOk ths = true) :
+    ∀ th ∈ ths, ε.sys.stacks th = [] := by
+  intro th hth
+  have hc := sscovers_run hP (einv_init m P) (fun _ => Nat.le_refl 0) hcl h th
+  have : ε.ss th = [] := by simpa using List.all_eq_true.1 hl th hth
+  rw [this] at hc
+  exact List.eq_nil_of_length_eq_zero (by simpa using hc)
+
 /-! Non-vacuity at the event level: an nOS-V history with a parallel task on two
     threads and nesting over a paused task; a Nanos6 history with relaxed
     nesting (needs a subsystem change in between: no duplicates on that
@@ -222,6 +261,9 @@ def P0 : ProcInfo := ⟨7, 2⟩
 example : eaccepts .nosv P0 demoNosv = true := by decide
 example : ELegal .nosv EAbs.init demoNosv := (event_accept_iff .nosv P0 (by decide) _).1 (by decide)
 example : eaccepts .nanos6 P0 demoNanos6 = true := by decide
+example : ∀ ev ∈ demoNosv, ev.clean .nosv := by
+  intro ev h; simp only [demoNosv, List.mem_cons, List.not_mem_nil, or_false] at h
+  rcases h with h | h | h | h | h | h | h | h | h | h | h | h | h | h <;> subst h <;> simp [Ev.clean, Cfg.nosv, Model.cfg]
 /-- the view while body 1 of task 9 runs on thread 0 (rank 2 shows as 3), and after it paused -/
 example : (match Emu.run .nosv P0 Emu.init (demoNosv.take 4) with
     | .ok ε => ε.ch 0 | .error _ => Chans.null) = ⟨some 9, some (gidOf 123456), some 1, some 7, some 3⟩ := by decide
